@@ -20,6 +20,11 @@
 (* which ssl context.  The behaviour walks every configuration through the phases (one      *)
 (* action per phase and outcome); the laws of the property are invariants of the model.     *)
 (* The same operators judge the recorded executions of the real code (TlsTrace.tla).        *)
+(* Second life of the consumer (stop_all + start_all on the same object): Retry after a     *)
+(* failed first connect (same environment) and RestartHostile in the middle of a session    *)
+(* (the environment has turned into the downgrade environment meanwhile).  The obligations  *)
+(* of a bound party are the same in every life: nothing it learnt or forgot in the first    *)
+(* one may open the door to plaintext in the second.                                        *)
 (* Three further enumerated domains (Init-only): certloader cases, soap client cases.       *)
 EXTENDS Naturals, Sequences, FiniteSets, TLC, Json
 
@@ -28,9 +33,11 @@ CONSTANTS Mgrs          \* subset of {"sync", "async", "sync_ref", "async_ref"}:
 VARIABLES cfg,    \* the case: a configuration, a certloader case or a soap client case (field kind)
           pi,     \* number of phases done (0: nothing yet)
           mode,   \* consumer connection mode: "init", "tls", "plain", "failed"
-          sub     \* the consumer's StateEvent subscription as seen by the provider: "none", "live", "broken", "ended"
+          sub,    \* the consumer's StateEvent subscription as seen by the provider: "none", "live", "broken", "ended"
+          env,    \* does the peer answer TLS NOW ("yes" / "no"): starts as cfg.peer, may turn hostile at a restart
+          round   \* 0: first life of the consumer, 1: after SdcConsumer.stop_all + start_all
 
-vars == <<cfg, pi, mode, sub>>
+vars == <<cfg, pi, mode, sub, env, round>>
 
 Phases == <<"metadata", "hosted", "subscribe", "probe", "notification", "renew", "operation", "unsubscribe", "stop">>
 NPhases == Len(Phases)
@@ -118,36 +125,45 @@ ClientScheme(k) == IF k.ctx = "none" THEN "http" ELSE "https"
 
 (* ------------------------------------------------------------------ behaviour *)
 IsCfg == cfg.kind = "cfg"
+\* the configuration in the environment of the moment
+C == IF IsCfg THEN [cfg EXCEPT !.peer = env] ELSE cfg
 
 Init == /\ (cfg \in Configs \/ cfg \in CertCases \/ cfg \in ClientCases)
         /\ pi = 0 /\ mode = "init" /\ sub = "none"
+        /\ env = (IF IsCfg THEN cfg.peer ELSE "yes") /\ round = 0
 
 \* first connect of the consumer (phase metadata)
-ConnectTls == /\ IsCfg /\ pi = 0 /\ mode = "init" /\ ModeAfterConnect(cfg) = "tls"
-              /\ mode' = "tls" /\ pi' = 1 /\ UNCHANGED <<cfg, sub>>
-ConnectPlain == /\ IsCfg /\ pi = 0 /\ mode = "init" /\ cfg.ctls = "none" /\ ModeAfterConnect(cfg) = "plain"
-                /\ mode' = "plain" /\ pi' = 1 /\ UNCHANGED <<cfg, sub>>
-Fallback == /\ IsCfg /\ pi = 0 /\ mode = "init" /\ cfg.ctls = "optional" /\ ModeAfterConnect(cfg) = "plain"
-            /\ mode' = "plain" /\ pi' = 1 /\ UNCHANGED <<cfg, sub>>
-ConnectFails == /\ IsCfg /\ pi = 0 /\ mode = "init" /\ ModeAfterConnect(cfg) = "failed"
-                /\ mode' = "failed" /\ UNCHANGED <<cfg, pi, sub>>
+ConnectTls == /\ IsCfg /\ pi = 0 /\ mode = "init" /\ ModeAfterConnect(C) = "tls"
+              /\ mode' = "tls" /\ pi' = 1 /\ UNCHANGED <<cfg, sub, env, round>>
+ConnectPlain == /\ IsCfg /\ pi = 0 /\ mode = "init" /\ cfg.ctls = "none" /\ ModeAfterConnect(C) = "plain"
+                /\ mode' = "plain" /\ pi' = 1 /\ UNCHANGED <<cfg, sub, env, round>>
+Fallback == /\ IsCfg /\ pi = 0 /\ mode = "init" /\ cfg.ctls = "optional" /\ ModeAfterConnect(C) = "plain"
+            /\ mode' = "plain" /\ pi' = 1 /\ UNCHANGED <<cfg, sub, env, round>>
+ConnectFails == /\ IsCfg /\ pi = 0 /\ mode = "init" /\ ModeAfterConnect(C) = "failed"
+                /\ mode' = "failed" /\ UNCHANGED <<cfg, pi, sub, env, round>>
 
 Established == IsCfg /\ mode \in {"tls", "plain"}
 At(ph) == Established /\ pi < NPhases /\ Phases[pi + 1] = ph
-Done == pi' = pi + 1 /\ UNCHANGED <<cfg, mode>>
+Done == pi' = pi + 1 /\ UNCHANGED <<cfg, mode, env, round>>
 
 Hosted == At("hosted") /\ Done /\ UNCHANGED sub
 Subscribe == At("subscribe") /\ Done /\ sub' = "live"
 Probe == At("probe") /\ Done /\ UNCHANGED sub
-NotifyDelivered == At("notification") /\ Delivers(cfg, mode) /\ Done /\ UNCHANGED sub
-NotifyFails == At("notification") /\ ~Delivers(cfg, mode) /\ Done /\ sub' = "broken"
+NotifyDelivered == At("notification") /\ Delivers(C, mode) /\ Done /\ UNCHANGED sub
+NotifyFails == At("notification") /\ ~Delivers(C, mode) /\ Done /\ sub' = "broken"
 Renew == At("renew") /\ Done /\ UNCHANGED sub
 Operate == At("operation") /\ Done /\ UNCHANGED sub
 Unsubscribe == At("unsubscribe") /\ Done /\ UNCHANGED sub      \* the Set subscription; StateEvent stays
 StopWithEnd == At("stop") /\ sub = "live" /\ Done /\ sub' = "ended"
 StopSilent == At("stop") /\ sub = "broken" /\ Done /\ UNCHANGED sub
 
-Next == \/ ConnectTls \/ ConnectPlain \/ Fallback \/ ConnectFails
+\* second life of the consumer object: stop_all, then start_all again
+Retry == /\ IsCfg /\ mode = "failed" /\ round = 0
+         /\ mode' = "init" /\ round' = 1 /\ UNCHANGED <<cfg, pi, sub, env>>
+RestartHostile == /\ Established /\ round = 0 /\ pi = 3 /\ env = "yes"
+                  /\ env' = "no" /\ mode' = "init" /\ pi' = 0 /\ sub' = "none" /\ round' = 1 /\ UNCHANGED cfg
+
+Next == \/ ConnectTls \/ ConnectPlain \/ Fallback \/ ConnectFails \/ Retry \/ RestartHostile
         \/ Hosted \/ Subscribe \/ Probe \/ NotifyDelivered \/ NotifyFails \/ Renew \/ Operate \/ Unsubscribe
         \/ StopWithEnd \/ StopSilent
 
@@ -157,6 +173,7 @@ Spec == Init /\ [][Next]_vars
 TypeOK == /\ pi \in 0..NPhases
           /\ mode \in {"init", "tls", "plain", "failed"}
           /\ sub \in {"none", "live", "broken", "ended"}
+          /\ env \in {"yes", "no"} /\ round \in {0, 1}
 
 \* a party bound by the property advertises https only and connects with its client context only, in every mode
 LawBound == IsCfg => \A party \in Parties : Bound(cfg, party) =>
@@ -166,31 +183,32 @@ LawBound == IsCfg => \A party \in Parties : Bound(cfg, party) =>
 \* an enforcing consumer never reaches the plaintext mode; a plaintext session of an optional consumer exists only
 \* where the provider's server did not answer the TLS handshake
 LawNoPlain == IsCfg => /\ (cfg.ctls = "enforced" => mode # "plain")
-                       /\ (cfg.ctls = "optional" /\ mode = "plain" => ~AnswersTls(ProviderServerTls(cfg), cfg))
+                       /\ (cfg.ctls = "optional" /\ mode = "plain" => ~AnswersTls(ProviderServerTls(C), C))
                        /\ (cfg.ctls = "optional" /\ mode \in {"init", "tls"}
                               => "none" \notin AllowedCtx(cfg, "consumer", mode))
 
 \* the session mode is one the provider's server answers; a TLS provider never delivers to a sink without TLS
-LawMode == IsCfg => /\ (mode = "tls" => AnswersTls(ProviderServerTls(cfg), cfg) /\ FirstCtx(cfg) # "none")
-                    /\ (mode = "plain" => AnswersPlain(ProviderServerTls(cfg), cfg))
-                    /\ (Established /\ cfg.ptls = "on" /\ Delivers(cfg, mode) => SinkTls(cfg, mode) /\ cfg.peer = "yes")
-                    /\ (sub \in {"live", "ended"} /\ pi >= 5 => Delivers(cfg, mode))
+LawMode == IsCfg => /\ (mode = "tls" => AnswersTls(ProviderServerTls(C), C) /\ FirstCtx(cfg) # "none")
+                    /\ (mode = "plain" => AnswersPlain(ProviderServerTls(C), C))
+                    /\ (Established /\ cfg.ptls = "on" /\ Delivers(C, mode) => SinkTls(cfg, mode) /\ env = "yes")
+                    /\ (sub \in {"live", "ended"} /\ pi >= 5 => Delivers(C, mode))
 
 \* an own server of a bound party that is in a session is a TLS server
 LawOwnServer == IsCfg /\ Established => \A party \in Parties :
                    Bound(cfg, party) => OwnServerCtx(cfg, party, mode) = ServerCtx(party)
 
 \* in the downgrade environment nothing a bound party does succeeds in plaintext: it has no session / no delivery
-LawDowngrade == IsCfg /\ cfg.peer = "no" =>
+LawDowngrade == IsCfg /\ env = "no" =>
                    /\ (cfg.ctls = "enforced" => mode \in {"init", "failed"})
-                   /\ (cfg.ptls = "on" /\ Established => ~Delivers(cfg, mode))
+                   /\ (cfg.ptls = "on" /\ Established => ~Delivers(C, mode))
 
 (* ------------------------------------------------------------------ emission of the cases (spec -> code) *)
 EmitCase ==
-  IF pi = 0 /\ mode = "init"
+  IF pi = 0 /\ mode = "init" /\ round = 0
   THEN IF cfg.kind = "cfg"
        THEN PrintT(<<"CASE", ToJson([c |-> cfg, mode |-> ModeAfterConnect(cfg),
-                                     delivers |-> Delivers(cfg, ModeAfterConnect(cfg))])>>)
+                                     delivers |-> Delivers(cfg, ModeAfterConnect(cfg)),
+                                     hostile |-> ModeAfterConnect([cfg EXCEPT !.peer = "no"])])>>)
        ELSE PrintT(<<"CASE", ToJson([c |-> cfg])>>)
   ELSE TRUE
 =============================================================================
